@@ -403,7 +403,7 @@ func RunCheck(opts *CheckOpts) int {
 	// functions under contract for this property
 	var keys []string
 	for k, c := range prog.Contracts {
-		if c.Trusted {
+		if c.Trusted && !(c.Sequential && hasProp(c, prop)) {
 			continue
 		}
 		if opts.AllFuncs || hasProp(c, prop) {
@@ -460,6 +460,29 @@ func RunCheck(opts *CheckOpts) int {
 				continue
 			}
 			r.Err = "contract does not bind: function " + ShortKey(k) + " not found"
+			continue
+		}
+		if c.Trusted && c.Sequential {
+			// structural obligation only: the body is not verified, but it must not
+			// contain a go statement
+			g := NewGen(prog, fn, c)
+			r.Gen = g
+			n := 0
+			for _, b := range fn.Blocks {
+				for _, in := range b.Instrs {
+					if gi, ok := in.(*ssa.Go); ok {
+						o := &Obligation{Name: fmt.Sprintf("%s#no-go.%d", ShortKey(k), n), Kind: "no-go", Fn: k, Clause: "sequential: the function starts no goroutine", Pos: g.pos(gi.Pos()), Reach: True, Goal: False, Gen: g}
+						r.Obligations = append(r.Obligations, o)
+						all = append(all, o)
+						n++
+					}
+				}
+			}
+			if n == 0 {
+				o := &Obligation{Name: ShortKey(k) + "#no-go", Kind: "no-go", Fn: k, Clause: "sequential: the function starts no goroutine", Reach: True, Goal: True, Gen: g}
+				r.Obligations = append(r.Obligations, o)
+				all = append(all, o)
+			}
 			continue
 		}
 		g := NewGen(prog, fn, c)
